@@ -115,7 +115,8 @@ Record topts := {
   o_drop_doctype : bool ;
   o_quirks : N ;                 (* initial quirks mode: 0 Quirks, 1 LimitedQuirks, 2 NoQuirks (DomSpec) *)
   o_allow_dsr : bool ;           (* answer of TreeSink::allow_declarative_shadow_roots (default impl: true) *)
-  o_attach_ok : bool             (* answer of TreeSink::attach_declarative_shadow (default impl: false) *)
+  o_attach_ok : bool ;           (* answer of TreeSink::attach_declarative_shadow (default impl: false) *)
+  o_dev : list bool              (* deviation switches, see [dev_on]; [] = html5ever as it is *)
 }.
 
 (* ---------- what the sink tells about handles ---------- *)
@@ -298,6 +299,28 @@ Definition get_attribute (t : tag) (local : str) : option str :=
 Definition emit (op : sinkop) : M unit := modify (fun s => set_out (EvOp op :: out s) s).
 Definition log_arm (m k : nat) : M unit := modify (fun s => set_out (EvArm m k :: out s) s).
 Definition parse_error : M unit := emit OpParseError.
+
+(* DEVIATION SWITCHES.  Where html5ever departs from the WHATWG tree-construction
+   text as transcribed here, the model has both behaviours; [dev_on s i] = true
+   selects what html5ever does (the default: the list may be shorter than the
+   index), false selects the WHATWG behaviour.  The correspondence run uses
+   o_dev = []; the C02 oracle compares the implementation with the all-false
+   variant and classifies every difference by the switches that explain it.
+     1  `ignore_lf` (LF after <pre>/<listing>/<textarea>) is dropped by an intervening ParseError token
+     2  "has an element in scope" lists lack MathML annotation-xml
+     3  the special category lacks `search`
+     4  the special category contains `isindex`
+     5  the special category lacks MathML mi mo mn ms mtext annotation-xml and SVG foreignObject desc title
+     6  the break-out pop loop in foreign content does not stop at an annotation-xml HTML integration point
+     7  <base>/<basefont>/<bgsound>/<link> with a charset attribute raise an EncodingIndicator like <meta>
+     8  DOCTYPE: force-quirks / name other than html win over iframe_srcdoc
+     9  characters in table: `template` is missing from the current-node test
+    10  the foreign attribute `xmlns` gets the prefix Some("") instead of no prefix
+    11  in table body, <caption>/<col>/<colgroup>/<tbody>/<tfoot>/<thead>/</table>: the scope test looks for
+        table/tbody/tfoot instead of tbody/thead/tfoot
+    12  declarative shadow root: "adjusted current node is not the topmost element" read as "stack has > 1 element"
+    13  DOCTYPE: the quirks public-id prefix "+//Silmaril//dtd html Pro v0r11 19970101//" is missing *)
+Definition dev_on (s : st) (i : nat) : bool := nth i (o_dev (opts s)) true.
 
 Definition next_handle (s : st) : handle := length (sv_elems (sv s)).
 Definition einfo_of (s : st) (h : handle) : option einfo := nth h (sv_elems (sv s)) None.
